@@ -106,6 +106,7 @@ def phase_ops(ctx, env, n):
         l, rc, err = vf.isolate_failure(env.exes['owner'], fa[0][0], timeout=20)
         ctx.violation('owner.ops-hang-or-crash', 'an owner-edit sequence crashes or does not terminate in the real SetOwner/GetRealOutRec/IsValidOwner '
                       '(rc=%s): %s' % (rc, l), replay=dict(kind='ops', line=l or fa[0][0][:3]))
+        env.dead = True        # whole runs would hang in the same loops: one concrete failing input is enough
         return
     b, fb = vf.par_lines(env.oracle, lines, timeout=300)
     if fb:
@@ -259,6 +260,8 @@ def split_tree_answer(line):
 #                                   inside CheckSplitOwner before the remaining splits of P were tested
 #   origin-of-split-not-searched    X in SC(T): X was split off T (or absorbed such a split) but its owner chain does not
 #                                   lead to T, so T is never tested
+# A flagged polygon (or, for clause 33, one of its siblings) that crosses itself -- two of its edges properly cross, or it
+# runs around some points clockwise and around others counter-clockwise (crossing at a vertex) -- gets tree.self-crossing-ring.
 # Anything else keeps the plain clause key.
 NEST = 'tree.nesting.'
 
@@ -288,6 +291,55 @@ def _contains(outer, inner):
                                                 for i in range(len(inner))]
     r = [_pip2(o2, q) for q in pr]
     return all(v != 0 for v in r[:len(inner)]) and any(v == 1 for v in r)
+
+
+def _self_crossing(p):
+    """two edges of the closed path p properly cross (exact)"""
+    def o(a, b, c):
+        return (b[0] - a[0]) * (c[1] - a[1]) - (b[1] - a[1]) * (c[0] - a[0])
+    n = len(p)
+    for i in range(n):
+        a, b = p[i], p[(i + 1) % n]
+        for j in range(i + 1, n):
+            c, d = p[j], p[(j + 1) % n]
+            o1, o2, o3, o4 = o(a, b, c), o(a, b, d), o(c, d, a), o(c, d, b)
+            if o1 and o2 and o3 and o4 and (o1 > 0) != (o2 > 0) and (o3 > 0) != (o4 > 0):
+                return True
+    return False
+
+
+def _wn(poly, q):
+    """winding number of the closed integer path around q, None when q is on the path"""
+    x, y = q
+    w = 0
+    n = len(poly)
+    for i in range(n):
+        (x1, y1), (x2, y2) = poly[i], poly[(i + 1) % n]
+        cr = (x2 - x1) * (y - y1) - (y2 - y1) * (x - x1)
+        if cr == 0 and min(x1, x2) <= x <= max(x1, x2) and min(y1, y2) <= y <= max(y1, y2):
+            return None
+        if y1 <= y < y2 and cr > 0:
+            w += 1
+        elif y2 <= y < y1 and cr < 0:
+            w -= 1
+    return w
+
+
+def _figure_eight(p):
+    """the ring encloses points with positive AND points with negative winding number (probes: one unit to the left and to
+    the right of every edge midpoint, in coordinates scaled by 4; exact for axis-parallel edges)"""
+    q4 = [(4 * a, 4 * b) for a, b in p]
+    pos = neg = False
+    n = len(p)
+    for i in range(n):
+        (x1, y1), (x2, y2) = q4[i], q4[(i + 1) % n]
+        mx, my = (x1 + x2) // 2, (y1 + y2) // 2
+        dx, dy = (x2 > x1) - (x2 < x1), (y2 > y1) - (y2 < y1)
+        for s in (1, -1):
+            w = _wn(q4, (mx - s * dy, my + s * dx))
+            if w:
+                pos |= w > 0; neg |= w < 0
+    return pos and neg
 
 
 def parse_tree_answer(line):
@@ -357,6 +409,15 @@ def classify_nesting(env, c, ct, fr, pc, rs, prec, nodes, k):
     return None
 
 
+def _parent_index(nodes, i):
+    """preorder index of the parent of node i (-1 = root)"""
+    d = nodes[i][0]
+    j = i - 1
+    while j >= 0 and nodes[j][0] >= d:
+        j -= 1
+    return j if d > 0 else -1
+
+
 def refine_keys(env, c, ct, fr, pc, rs, prec, r, codes):
     """tree_check codes -> [(key, node index)]: clauses 33/34 at a node whose mis-nesting is explained by one of the known
     mechanisms are reported under that mechanism's key (one key per defect), everything else under the clause's key"""
@@ -380,6 +441,13 @@ def refine_keys(env, c, ct, fr, pc, rs, prec, r, codes):
                         d = nodes[j][0]; m = mech(j)
             if m:
                 key = NEST + m
+            else:
+                # a ring that crosses itself (figure of eight: an outer loop fused with a hole of another polygon) has no
+                # correct place in the tree; the defect is in the ring building, the tree only shows its consequence
+                par = _parent_index(nodes, idx)
+                group = [idx] + ([j for j in range(len(nodes)) if j != idx and _parent_index(nodes, j) == par] if code == 33 else [])
+                if any(_self_crossing(nodes[j][3]) or _figure_eight(nodes[j][3]) for j in group):
+                    key = 'tree.self-crossing-ring'
         if (key, idx) not in out:
             out.append((key, idx))
     return out
@@ -394,10 +462,16 @@ def setup(ctx):
     env.exes = {}
     env.shape = None
     env.tie_miss = {v: [] for v in range(4)}
+    env.dead = False
+    env.tmo = 150 if ctx.quick else 1200      # a whole-run phase takes seconds; a hang must not cost the budget
     env.oracle = vf.oracle_build('tree')
     env.region = vf.oracle_build('region')
     try:
         env.exes['owner'] = vf.build_cpp(ctx, 'cx_owner.cpp', 'plain')
+        try:
+            os.utime(env.exes['owner'])       # the shared binary cache evicts by mtime: mark it as in use
+        except OSError:
+            pass
     except vf.BuildFailure as e:
         ctx.violation('tie-break:cx_owner', 'ownership harness no longer builds (SetOwner/GetRealOutRec/IsValidOwner/MoveSplits/CheckBounds/'
                       'Path1InsidePath2/BuildTree64 or OutRec fields changed?): %s' % str(e)[-500:], replay=dict(error=str(e)[-2000:]), nofail=True)
@@ -501,6 +575,9 @@ def shrink(env, c, cfg, key, budget=150):
 
 
 def phase_api(ctx, env, cases, label, precs=(None,), combos=None):
+    if env.dead:                    # the code under test hangs or crashes (already reported with a failing input)
+        ctx.count('phases_skipped_after_hang_or_crash')
+        return
     rng = ctx.rng.fork(31 + len(label))
     jobs, lines = [], []
     for ci, c in enumerate(cases):
@@ -515,11 +592,12 @@ def phase_api(ctx, env, cases, label, precs=(None,), combos=None):
                     ctx.count('polytreeD_skipped_out_of_range')
                     continue
                 jobs.append((ci, ct, fr, pc, rs, prec)); lines.append(api_line(c, ct, fr, pc, rs, prec))
-    outs, fails = vf.par_lines(env.exes['owner'], lines, timeout=600)
+    outs, fails = vf.par_lines(env.exes['owner'], lines, timeout=env.tmo)
     if fails:
         l, rc, err = vf.isolate_failure(env.exes['owner'], fails[0][0], timeout=30)
         ctx.violation('crash.polytree', 'PolyTree execution crashed or hung (rc=%s): %s' % (rc if l else fails[0][1], (err or fails[0][2])[-300:]),
                       replay=dict(kind='line', line=l or fails[0][0][:3]))
+        env.dead = True
         return
     chk, cidx = [], []
     parsed = {}
@@ -569,6 +647,9 @@ def phase_api(ctx, env, cases, label, precs=(None,), combos=None):
 
 
 def phase_tie_tree(ctx, env, cases, label, combos=None):
+    if env.dead:
+        ctx.count('phases_skipped_after_hang_or_crash')
+        return
     rng = ctx.rng.fork(41 + len(label))
     jobs, lines = [], []
     for ci, c in enumerate(cases):
@@ -578,11 +659,12 @@ def phase_tie_tree(ctx, env, cases, label, combos=None):
         for ct, fr in cl:
             pc, rs = rng.below(2), rng.below(2)
             jobs.append((ci, ct, fr, pc, rs)); lines.append(tree_line(c, ct, fr, pc, rs))
-    outs, fails = vf.par_lines(env.exes['owner'], lines, timeout=600)
+    outs, fails = vf.par_lines(env.exes['owner'], lines, timeout=env.tmo)
     if fails:
         l, rc, err = vf.isolate_failure(env.exes['owner'], fails[0][0], timeout=30)
         ctx.violation('crash.polytree', 'BuildTree64 crashed or hung (rc=%s): %s' % (rc if l else fails[0][1], (err or fails[0][2])[-300:]),
                       replay=dict(kind='line', line=l or fails[0][0][:3]))
+        env.dead = True
         return
     ml, midx = [], []
     for k, line in enumerate(outs):
@@ -627,6 +709,8 @@ SHAPES = {0: 'snapshot (owner chain only)', 1: 'own splits first', 2: 'owner mar
 def decide_tie(ctx, env):
     """The real BuildTree64 must agree, on EVERY dumped state, with one and the same shape of the model (all theorems are
     proved for every shape); otherwise the ownership model no longer describes the code."""
+    if not ctx.cov.get('tie_tree_runs'):
+        return
     agreeing = [v for v in range(4) if not env.tie_miss[v]]
     ctx.cov['tie_tree_disagreements_by_model_shape'] = {SHAPES[v]: len(env.tie_miss[v]) for v in range(4)}
     if agreeing:
